@@ -81,6 +81,33 @@ def run(ctx):
         n_edited += 1
         n_resent += 1
     hist["packed-edited-packed-again"] = n_edited
+    # a pack() that FAILS part-way (a text field UTF-8 cannot encode, bytes where text is expected, None for a mandatory field), then a pack() of a
+    # valid message: its bytes are strict RFC 4511 BER of that message alone (nothing of the failed attempt is in them)
+    import p_recv
+    n_after = 0
+    for j in msgs[len(p_c01.corpus_messages()):][: ctx.scale(600, 10000)]:
+        bad = ctx.rng.choice(p_recv.UNENCODABLE)
+        broken = [lambda: M.ExtendedRequest(message_id=7, controls=[], name=bad, value=b"v").pack(M.PackingOptions()),
+                  lambda: M.SearchRequest(message_id=7, controls=[], base_object="dc=x", scope=M.SearchScope(2), deref_aliases=M.DereferencingPolicy(0), size_limit=0,
+                                          time_limit=0, types_only=False, filter=C.sansldap.FilterEquality("cn", b"v"), attributes=["cn", bad]).pack(M.PackingOptions()),
+                  lambda: M.BindRequest(message_id=7, controls=[C.sansldap.LDAPControl("1.2", True, "text-not-bytes")], version=3, name="cn=x",
+                                        authentication=C.sansldap.SimpleCredential(None)).pack(M.PackingOptions()),
+                  lambda: M.SearchResultEntry(message_id=7, controls=[], object_name="cn=x", attributes=[M.PartialAttribute("cn", [b"a", bad])]).pack(M.PackingOptions())]
+        try:
+            ctx.rng.choice(broken)()
+            hist["failed-pack:accepted"] += 1
+        except BaseException:  # noqa: BLE001
+            pass
+        try:
+            data = bytes(C.msg_from_json(j).pack(M.PackingOptions()))
+        except BaseException:  # noqa: BLE001
+            continue
+        msgs.append(j)
+        encs.append(data)
+        reqs.append({"op": "rfcdec", "hex": data.hex()})
+        n_after += 1
+        n_resent += 1
+    hist["packed-after-a-failed-pack"] = n_after
     violations = []
     disagreements = []
     samples = []
@@ -132,7 +159,7 @@ def run(ctx):
         "rule": "messages generated as for C01; each is packed by the implementation and its bytes are decoded by the executable strict "
                 "RFC 4511 decoder of Spec/Rfc4511.lean; the result must equal the message (modulo the raw value of known controls); the same for "
                 "messages that were first decoded from another encoder's permitted (non-canonical) bytes and then packed again, and for message objects "
-                "that were packed, edited in place through their list fields and packed again; "
+                "that were packed, edited in place through their list fields and packed again, and for messages packed right after a pack() that failed part-way; "
                 "distinct = distinct (kind, control kinds, filter shape)",
         "samples": samples,
         "histogram": dict(sorted(hist.items())),
